@@ -65,6 +65,17 @@ CLAIMED = {
               'known_findings.json; affected documents are judged after replacing exactly those references. Writers covered so '
               'far: XmlStream itself, LASToHTML; RP66V1 XML index / HTML and LIS HTML are added with their generators.'),
         technique='TLA+ spec + TLC model checking; replay of every model behaviour; TLC trace validation of writer call streams'),
+    'C13': dict(
+        category='model_checking', design='3/C13',
+        text=('TLC checks the TIF block walker and channel-major de-interleave design (Bit.tla) against the abstract pass '
+              'matrix for a set of pass/block patterns (short last block, 1..20 channels, several passes); IBM single '
+              'precision is specified as an exact dyadic and TLC writes an oracle table of words on which bytes_to_float, '
+              'gen_floats and RP66V1 ISINGL are compared exactly; files rendered by an independent encoder (patterns + seeded '
+              'random) are read by create_bit_frame_array_from_file and compared cell by cell with ExpectedCell, names, frame '
+              'counts and the computed X axis.'),
+        note=('The model is deterministic (tens of states); strength comes from the spec-derived oracle and the rendered files. '
+              'Known finding F3 (gen_floats divisor) is recognised by its exact wrong value and listed in known_findings.json.'),
+        technique='TLA+ spec + TLC (design check, oracle table); spec-derived replay on rendered files'),
 }
 
 NOT_YET = 'check not built yet in this session; planned per DESIGN.md section 3'
